@@ -20,4 +20,18 @@ theorem rollback_statements :
        "Integration.Delete Exec: delete from %s where src_name = $1 and ig_name = $2 and block_num >= $3 <- wctx.SrcName(ctx), ig.name, n"] := by
   decide +kernel
 
+/-- **position_statements** (C01, C02, C05, C04): the statements by which a task reads and records its position
+    are the model's. `latest` is "the newest position of this (source, integration)" (`DB.latestCur`: stamp
+    equality, `order by num desc limit 1`); `latestDependency` is "per referenced integration its newest position
+    on this source, the smallest of them first" (`depTarget`); `update` inserts one position row stamped with the
+    task's own source and integration; the pruning statement partitions BY THE PAIR and keeps the `$1` newest
+    positions of each (`World.prune`). -/
+theorem position_statements :
+    positionCalls =
+      ["latest QueryRow: select num, hash from shovel.task_updates where src_name = $1 and ig_name = $2 order by num desc limit 1 <- t.srcName, t.destConfig.Name",
+       "latestDependency Query: with latest as ( select distinct on (ig_name) ig_name, num, hash from shovel.task_updates where src_name = $1 and ig_name = ANY($2) order by ig_name, num desc ) select num, hash from latest order by num asc <- t.srcName, t.destConfig.Dependencies",
+       "update Exec: insert into shovel.task_updates ( chain_id, src_name, ig_name, num, hash, src_num, src_hash, stop, nblocks, nrows, latency ) values ($1, $2, $3, $4, $5, $6, $7, $8, $9, $10, $11) <- t.srcChainID, t.srcName, t.destConfig.Name, num, hash, srcNum, srcHash, t.stop, nblocks, nrows, elapsed",
+       "PruneTask Exec: delete from shovel.task_updates where (src_name, ig_name, num) not in ( select src_name, ig_name, num from ( select src_name, ig_name, num, row_number() over(partition by src_name, ig_name order by num desc) as rn from shovel.task_updates ) as s where rn <= $1 ) <- n"] := by
+  decide +kernel
+
 end Shovel.World
